@@ -238,7 +238,7 @@ func (c *Check) disagree(d *Disagreement) {
 	_ = os.MkdirAll(dir, 0o755)
 	path := filepath.Join(dir, hex.EncodeToString(h[:6])+".json")
 	_ = os.WriteFile(path, b, 0o644)
-	fmt.Printf("VIOLATION property=%s replay=%s\n", c.Prop, path)
+	fmt.Printf("\nVIOLATION property=%s replay=%s\n", c.Prop, path) // (the engine itself prints to stdout, sometimes without a newline)
 	fmt.Printf("  %s [%s] script=%.200q expected=%.120s got=%.120s\n", d.Kind, d.Mode, d.Script, d.Expected, d.Got)
 }
 
@@ -253,7 +253,7 @@ func (c *Check) finish() int {
 	for _, id := range ids {
 		for _, f := range c.findings {
 			if f.ID == id {
-				fmt.Printf("KNOWN-FINDING: property=%s %s (%d cases; %s)\n", f.Property, f.ID, c.knownHits[id], f.What)
+				fmt.Printf("\nKNOWN-FINDING: property=%s %s (%d cases; %s)\n", f.Property, f.ID, c.knownHits[id], f.What)
 			}
 		}
 	}
@@ -296,7 +296,7 @@ func (c *Check) finish() int {
 	if strings.HasPrefix(c.Prop, "C") {
 		_ = os.WriteFile(filepath.Join(verifRoot, "evidence", c.Prop+".json"), b, 0o644)
 	}
-	fmt.Printf("%s tier=%s seed=%d: states=%d transitions=%d evaluations=%d distinct=%d behaviours=%d traces=%d violations=%d known=%v wall=%.1fs\n",
+	fmt.Printf("\n%s tier=%s seed=%d: states=%d transitions=%d evaluations=%d distinct=%d behaviours=%d traces=%d violations=%d known=%v wall=%.1fs\n",
 		c.Prop, c.Tier, c.Seed, c.states, c.transitions, c.evaluations, len(c.distinct), c.behaviours, c.traces, c.violations, c.knownHits, time.Since(c.start).Seconds())
 	for k, n := range c.byKind {
 		fmt.Printf("  violations of kind %q: %d e.g.%s\n", k, n, c.kindExample[k])
@@ -305,7 +305,7 @@ func (c *Check) finish() int {
 		return 1
 	}
 	if c.inconclusive != "" {
-		fmt.Printf("INCONCLUSIVE property=%s %s\n", c.Prop, c.inconclusive)
+		fmt.Printf("\nINCONCLUSIVE property=%s %s\n", c.Prop, c.inconclusive)
 		return 2
 	}
 	return 0
